@@ -14,6 +14,22 @@ CHECKS = {
          "The model is tied to modint.py by exact-output correspondence: all 2^16 pairs at 8 bits x 15 operators, boundary sets at all 121 class pairs, plain ints outside the range, random."),
    note=TB + "Modelled, not verified: ModInt.v is a hand transcription of modint.py (correspondence ~3M cases quick). Shift counts <= 300 and exponents <= 40 in the correspondence only.",
    design='4/C14'),
+ 'C15': dict(
+   technique='Coq proof by induction over the nested expression type (custom induction principle) about a Gallina model of expression.py + exact-output correspondence',
+   text=("Theorems (props/C15.v, closed): for ALL trees (8 node kinds, any depth/arity): == is reflexive, symmetric, transitive; == implies equal hashes for every host hash "
+         "function (every PYTHONHASHSEED), equal width and equal value under every valuation/memory/operator interpretation; copy() and visit(identity) return the same tree; "
+         "visit(cb) preserves width and value whenever cb does; replace_expr with any map whose keys and images have equal width and value preserves width and value (substitution as congruence). "
+         "canonize's value preservation is NOT yet a theorem (correspondence + value search only). Model tied to expression.py by exact-output correspondence (~48k cases quick)."),
+   note=TB + "Modelled, not verified: Expr.v (hand transcription of expression.py: __eq__/__hash__/visit/copy/replace_expr/canonize/key_expr). "
+        "Object identity ('shares no mutable node') is outside Gallina: checked on the implementation by id()-disjointness. ExprAff's slice-destination constructor sugar is outside the model.",
+   design='4/C15'),
+ 'C16': dict(
+   technique='Coq proof by structural induction (coincidence lemma for get_r) about the Gallina model of expression.py + exact-output correspondence incl. call-history cases',
+   text=("Theorems (props/C16.v, closed): coincidence — for ALL trees, if two states agree on every identifier and memory cell reported by get_r (both mem_read modes) the value is the same in both; "
+         "get_w of an assignment names its destination. MatchExpr soundness is NOT yet a theorem: it is decided by exact-output correspondence of the model of MatchExpr (three return conventions) "
+         "plus substitution of the returned bindings on the implementation (instances, single-feature mutants, patterns whose expression contains wildcards)."),
+   note=TB + "Modelled, not verified: Expr.v (get_r/get_w/get_expr_ids/MatchExpr/test_set).",
+   design='4/C16'),
 }
 PENDING = {p: 'check under construction in this round (see DESIGN.md section 6 staging); not claimed yet' for p in ALL}
 def main():
